@@ -13,10 +13,14 @@ RULE = (
     "G2 direct-check programs (every condition computed in the block that consumes it by assert/bz/bnz/return; "
     "governed fields meet constants only; loops, shared and nested subroutines, no recursion; logic-sig and "
     "application flavour). R-LIT decides per detector whether an accepting walk (matched calls/returns) exists "
-    "when comparisons of the governed fields are read literally (two-field detectors: both fields fixed to the "
-    "dangerous kind, no correlation used) and every other condition is free; group-size-check: a walk under "
+    "when comparisons of the governed fields are read literally (two-field detectors: one field at a time, the "
+    "other one free; protected when one field excludes the dangerous value on its own) and every other "
+    "condition is free; group-size-check: a walk under "
     "GroupSize=16 through a block with an absolute-index read. No such walk => the detector must report no "
-    "path. Protected and unprotected programs are both generated and counted. Non-trivial (per program x "
+    "path. Components: lsig / app (own `txn F` checks), pinned (first statement asserts GroupIndex == i, governed "
+    "checks spelled gtxn i F: a read through i is the own field), allslots (every governed comparison repeated "
+    "on gtxn 0..15 F: excluded when excluded for every own position; GroupIndex checks stay free). "
+    "Protected and unprotected programs are both generated and counted. Non-trivial (per program x "
     "detector) = R-LIT says protected, the program checks a governed field of the detector, and the protecting "
     "check sits outside the entry block, under a connective/negation, or has the constant on the left; distinct "
     "by (source, detector)."
@@ -24,21 +28,31 @@ RULE = (
 ASSUMPTIONS = ["R-LIT (vf/rlit.py) with the generator's condition annotations is the reference"]
 
 
-def lit_protected(lit: Lit, det: str, pin=None) -> bool:
+def lit_protected(lit: Lit, det: str, pin=None, allslots=False) -> bool:
     alts = lit_valuations(det, lit.g)
-    if pin is not None and det != "group-size-check":
-        # pinned component: the first statement asserts `txn GroupIndex == pin`, so a read through that very
-        # absolute index is a read of the governed transaction's own field
-        alts = [[dict(v, __own_index__=pin) for v in alt] for alt in alts]
-    for alt in alts:
-        if det == "group-size-check":
+    if det == "group-size-check":
+        for alt in alts:
             cs, _ = lit.walks(alt[0])
             if any(lit.abs_read_block[b] for b in cs):
                 return False
-        # two-field detectors: the fields are read one at a time (the other one free, like every other
-        # condition); the dangerous value is excluded when one of the fields excludes it on its own
-        elif all(lit.walks(v)[0] for v in alt):
-            return False
+        return True
+    if pin is not None:
+        # pinned component: the first statement asserts `txn GroupIndex == pin`, so a read through that very
+        # absolute index is a read of the governed transaction's own field
+        own = [pin]
+    elif allslots:
+        # all-slots component: whatever position i the governed transaction has, `gtxn i F` is its own field;
+        # the dangerous value is excluded when it is excluded for every i (GroupIndex checks stay free)
+        own = list(range(16))
+    else:
+        own = [None]
+    for i in own:
+        for alt in alts:
+            vals = alt if i is None else [dict(v, __own_index__=i) for v in alt]
+            # two-field detectors: the fields are read one at a time (the other one free, like every other
+            # condition); the dangerous value is excluded when one of the fields excludes it on its own
+            if all(lit.walks(v)[0] for v in vals):
+                return False
     return True
 
 
@@ -59,7 +73,7 @@ def check(case):
     checks_outside_entry = any(i > first_block_end for i in lit.ann if g.seq[i].op in ("assert", "bz", "bnz", "return") and lit.ann[i][0] not in ("true", "false"))
     for det in names:
         checks_field = bool(used & set(GOVERNED_FIELDS[det]))
-        prot = lit_protected(lit, det, case.get("pin"))
+        prot = lit_protected(lit, det, case.get("pin"), bool(case.get("allslots")))
         if prot:
             if checks_field:
                 counters["protected_pairs"] += 1
@@ -83,4 +97,7 @@ def components(tier, disabled):
         # own position asserted by the first statement, governed fields read as `gtxn i F` / `int i; gtxns F`
         "pinned": {"strategy": semantic_program(profile="direct", disabled=disabled, max_stmts=(10 if q else 16), pinned=True),
                    "check": check, "examples": 1600 if q else 30000, "sample": lambda c, i: RCFG(c).text},
+        # a governed field is compared on every group position (`gtxn 0 F ... gtxn 15 F`), own position unknown
+        "allslots": {"strategy": semantic_program(profile="direct", disabled=disabled, max_stmts=(6 if q else 9), allslots=True),
+                     "check": check, "examples": 800 if q else 20000, "sample": lambda c, i: RCFG(c).text},
     }
